@@ -28,11 +28,12 @@ Inductive err :=
 | ESummation (m : sum_msg)   (* SummationError *)
 | ECalc                      (* CalcError family raised by the expression evaluator / parser *)
 | EOther                     (* any exception that is not an MITxError (ValueError, OverflowError ...) *)
-| EGeneric.                  (* StudentFacingError("Invalid Input: Could not check input(s) ...") made by __call__ *)
+| EGeneric                   (* StudentFacingError("Invalid Input: Could not check input(s) ...") made by __call__ *)
+| EUnrecorded.               (* harness only: an oracle query the implementation never made (never produced by the model) *)
 
 Definition student_facing (e : err) : bool :=
-  match e with EConfig => false | EOther => false | _ => true end.
-Definition is_mitx (e : err) : bool := match e with EOther => false | _ => true end.
+  match e with EConfig => false | EOther => false | EUnrecorded => false | _ => true end.
+Definition is_mitx (e : err) : bool := match e with EOther => false | EUnrecorded => false | _ => true end.
 
 Inductive outcome (A : Type) := Ret (a : A) | Raise (e : err).
 Arguments Ret {A} a.
